@@ -31,6 +31,8 @@ impl Exec for Loop {
         loop {
             #[cfg(feature = "verif")]
             crate::verif::tick();
+            #[cfg(feature = "verif-loom")]
+            crate::verif_loom::loop_point();
             match self.0.exec(interpreter) {
                 Ok(_) | Err(ExecStop::Continue) => (),
                 Err(ExecStop::Break) => break,
